@@ -195,7 +195,7 @@ func classOf(sp *spend, refOK bool, refErr refscript.ScriptError, flags uint32, 
 					grp = "directed"
 				}
 			}
-			c := dir + "/explained-by:" + q.name + "/" + grp
+			c := "explained-by:" + q.name + "/" + dir + "/" + grp
 			if b := sigLenBucket(sp); b != "" {
 				c += "/" + b
 			}
